@@ -33,6 +33,10 @@ CHECKS['C17'] = dict(cat='other',
     tech='CrossHair/z3: set iteration order of identity-hashed objects as solver-chosen permutation (rebound `set` in supp.name/scope/evaluator), real location()/exported names compared with the insertion-order run',
     text='Solver-enumerated (E): every iteration order of the sets built while resolving a multiply-bound name (6^3 orders per program, 6 programs incl. cross-module from-import/attribute access) gives the same location() result and exported names, with alternatives in source order. This replaces fresh-process/hash-seed runs, which are outside the technique.',
     note='`set` rebound to a subclass with harness-chosen iteration order; dict order and os.listdir order not varied; each path is one concrete run.', ref='3/C17')
+CHECKS['C13'] = dict(cat='other',
+    tech='CrossHair/z3: every AST node position is a symbolic affine expression of layout parameters (derived from and validated against the real parser); real extractor / bisect / Location comparisons run on symbolic positions; differential against the canonical layout',
+    text='Bounded symbolic execution: for each shape, naming and layout structure (enumerated), the numeric layout parameters (blank/comment lines, indentation width, continuation indent, extra spaces) are solver variables; every read must resolve to the same alternatives as in the one-statement-per-line layout for all parameter values. Sampled concrete layouts are additionally pushed through real lint (codes and messages in order).',
+    note='layout structures (which statements are joined/one-lined/broken) enumerated; positions from an affine model validated against ast.parse each run; find_id_loc stubbed (C11); identifiers concrete.', ref='3/C13')
 NA = {}
 
 def main():
